@@ -128,6 +128,31 @@ def mon_queue_in_force(steps, meta):
 wk.MONITORS["queue_in_force"] = mon_queue_in_force
 
 
+def mon_snapshot_of_directory(steps, meta):
+    """the project store holds snapshots of PROJECTS - directories: no entry appears under the project store for a
+    watched regular file (a loose file lying directly in a project parent is an ordinary file: its version belongs in
+    the file store)"""
+    prev = None
+    for st in steps:
+        if st.dump is None:
+            continue
+        cur = st.dump
+        if prev is not None:
+            for p, e in cur.items():
+                m = wk.re.match(r"^/k/projects/([^/]+)/[^/]+$", p)
+                if m and p not in prev:
+                    name = m.group(1)
+                    asfile = [q for q, x in cur.items() if q.startswith("/w/") and q.endswith("/" + name) and x[0] == "file"]
+                    asdir = [q for q, x in list(cur.items()) + list(prev.items()) if q.startswith("/w/") and q.endswith("/" + name) and x[0] == "dir"]
+                    if asfile and not asdir:
+                        return "the project store got the entry %s for %s, which is a regular file, not a project (its version belongs at store_root/%s/...)" % (p, asfile[0], asfile[0][len("/w/"):])
+        prev = cur
+    return None
+
+
+wk.MONITORS["snapshot_of_directory"] = mon_snapshot_of_directory
+
+
 def main(rep):
     exe_impl, exe_model = vlib.prepare(rep)
     found = False
@@ -195,7 +220,7 @@ def main(rep):
             s.dump()
             ncases.append(("n%d" % i, s.text(), {"names": names}))
         if not found:
-            f2, v2 = wk.run_cases(rep, exe_impl, exe_model, wcases, ["confined", "layout", "faithful"], what="confinement")
+            f2, v2 = wk.run_cases(rep, exe_impl, exe_model, wcases, ["confined", "layout", "faithful", "snapshot_of_directory"], what="confinement")
             found = found or f2
             validated += v2
         if not found:
